@@ -127,7 +127,7 @@ End LenStep.
 
 Lemma schema_ok_tags sc i fs : schema_ok sc = true -> nth_error sc i = Some fs -> Forall tag_ok (flat_map field_tags fs).
 Proof.
-  intros Hs Hn. unfold schema_ok in Hs. rewrite forallb_forall in Hs. apply nth_error_In in Hn. specialize (Hs fs Hn).
+  intros Hs Hn. unfold schema_ok in Hs. apply andb_prop in Hs. apply proj1 in Hs. rewrite forallb_forall in Hs. apply nth_error_In in Hn. specialize (Hs fs Hn).
   unfold msgdesc_ok in Hs. apply andb_prop in Hs. destruct Hs as [Hs _]. apply andb_prop in Hs. destruct Hs as [_ Hs].
   apply Forall_forall. rewrite forallb_forall in Hs. intros t Ht. apply tag_okb_spec. apply Hs. exact Ht.
 Qed.
